@@ -1,20 +1,22 @@
 //! Which scenarios decide which property, and with what budget.
 
 use crate::framework::{Scenario, Tier};
-use crate::{scen_agg, scen_queue};
+use crate::{scen_agg, scen_queue, scen_uow};
 
 pub fn scenarios(prop: &str) -> Vec<Box<dyn Scenario>> {
     match prop {
         "C01" => vec![Box::new(scen_queue::QueueFifo), Box::new(scen_queue::QueueFifoSustained)],
         "C04" => vec![Box::new(scen_queue::QueueFlushBarrier), Box::new(scen_queue::QueueFlushLiveness)],
         "C05" => vec![Box::new(scen_queue::QueueShutdown)],
+        "C06" => vec![Box::new(scen_uow::UowClose)],
+        "C13" => vec![Box::new(scen_uow::UowSlots)],
         "C09" => vec![Box::new(scen_queue::QueueOverflow)],
         "C10" => vec![Box::new(scen_agg::Aggregation)],
         _ => vec![],
     }
 }
 
-pub const CLAIMED: [&str; 5] = ["C01", "C04", "C05", "C09", "C10"];
+pub const CLAIMED: [&str; 7] = ["C01", "C04", "C05", "C06", "C09", "C10", "C13"];
 
 pub struct Budget {
     /// number of runs (quick: exactly this many; thorough: upper bound)
@@ -31,6 +33,8 @@ pub fn budget(prop: &str, tier: Tier) -> Budget {
         "C04" => (60_000, 720),
         "C05" => (120_000, 600),
         "C09" => (150_000, 480),
+        "C06" => (150_000, 480),
+        "C13" => (150_000, 480),
         "C10" => (100_000, 600),
         _ => (20_000, 600),
     };
